@@ -133,7 +133,9 @@ def tlc_verify(name, constants, invariants, workdir, workers=8, timeout=1500,
     cfg = os.path.join(workdir, f"{name}-verify.cfg")
     write_cfg(cfg, constants, invariants=invariants, view=view, constraint=constraint)
     t0 = time.time()
-    rc, out = run_tlc(module, cfg, workdir, workers=workers, timeout=timeout)
+    cex = os.path.join(workdir, f"{name}-cex.json")
+    rc, out = run_tlc(module, cfg, workdir, workers=workers, timeout=timeout,
+                      extra=["-dumpTrace", "json", cex])
     st = parse_tlc_stats(out)
     st["wall_s"] = round(time.time() - t0, 1)
     st["timeout"] = rc == 124
@@ -144,6 +146,13 @@ def tlc_verify(name, constants, invariants, workdir, workers=8, timeout=1500,
         raise ToolError(f"TLC verification run failed rc={rc}")
     if st.get("violated"):
         st["counterexample"] = out[-6000:]
+        try:
+            with open(cex) as f:
+                d = json.load(f)
+            hs = [x[1].get("h", []) for x in d["counterexample"]["state"]]
+            st["cex_ops"] = max(hs, key=len)
+        except (OSError, KeyError, ValueError, IndexError):
+            st["cex_ops"] = None
     return st
 
 
